@@ -83,6 +83,46 @@ func (w *world) acceptedCases(c *Ctx, im *Impl, cf *CaseFile) {
 		eph = eph[strings.LastIndex(eph, ":")+1:]
 		conns = append(conns, pair{d, a, eph})
 	}
+	// first a notice that is NOT 'service unknown': a datagram from the listener's own socket to
+	// connection 1's remote address that has no hop budget expires on the spot ('message
+	// expired' on the listener's socket, naming connection 1's peer).  The peer has not gone
+	// away: no connection may be cancelled by it.
+	lpc.SetHopsToLive(0)
+	_, _ = lpc.WriteTo([]byte("no hop budget"), w.nodes[dst].NewAddr(w.names[src], conns[1].eph))
+	lpc.SetHopsToLive(byte(w.mh))
+	WaitFor(2*time.Second, func() bool { mu.Lock(); defer mu.Unlock(); return len(notifs) > 0 })
+	time.Sleep(150 * time.Millisecond)
+	mu.Lock()
+	var expiredN []netceptor.UnreachableNotification
+	for _, n := range notifs {
+		if n.Problem == netceptor.ProblemExpiredInTransit {
+			expiredN = append(expiredN, n)
+		}
+	}
+	notifs = nil
+	mu.Unlock()
+	if len(expiredN) > 0 {
+		var ps, obs []string
+		for i, p := range conns {
+			msg := []byte(fmt.Sprintf("alive-after-expiry-%d", i))
+			_, werr := p.a.Write(msg)
+			buf := make([]byte, len(msg))
+			_ = p.d.SetReadDeadline(time.Now().Add(3 * time.Second))
+			_, rerr := io.ReadFull(p.d, buf)
+			_ = p.d.SetReadDeadline(time.Time{})
+			dead := werr != nil || rerr != nil || !bytes.Equal(buf, msg)
+			if dead {
+				im.Violate(fmt.Sprintf("%s: connection %s:%q <- %s:%q stopped working (write: %v, read: %v) after a 'message expired' notification about %q arrived on the listener's socket: only 'service unknown' means the peer is gone",
+					w.spec.name, w.names[src], p.eph, w.names[dst], svc, werr, rerr, conns[1].eph), "connection-cancelled-by-expiry-notice", nil)
+			}
+			ps = append(ps, fmt.Sprintf("mkpkt %s %s %s %s", HxS(w.names[dst]), HxS(svc), HxS(w.names[src]), HxS(p.eph)))
+			obs = append(obs, CoqBool(dead))
+		}
+		cf.Add(fmt.Sprintf("CMonitor (%s, %s, %s) %s %s", HxS(w.names[dst]), HxS(svc), coqNotif(expiredN[0]), CoqList(ps), CoqList(obs)),
+			fmt.Sprintf("%s: 'message expired' notification about connection 1's peer on the socket shared by %d accepted connections", w.spec.name, k))
+		im.Count(w.spec.name+"|expiry-notice-on-shared-socket", true)
+	}
+	im.Hist(fmt.Sprintf("accepted:expiry-notifications=%d", len(expiredN)))
 	// connection 0: the server sends in bulk, the dialler reads a little and aborts
 	go func() {
 		blk := bytes.Repeat([]byte("0123456789abcdef"), 512)
